@@ -115,10 +115,6 @@ def _ground(ob, ctx, rounds=2, max_terms=60):
             a, b = app.arg(0), app.arg(1)
             if kind == "sum":
                 extra.append(z3.Implies(a >= b, app == 0))
-                if getattr(sym, "positive", False):
-                    extra.append(z3.Implies(a < b, app > 0))
-                if getattr(sym, "nonneg", False):
-                    extra.append(app >= 0)
                 extra.append(z3.Implies(a < b, app == sym.fn(a, b - 1) + sym.body(b - 1)))
                 extra.append(z3.Implies(a < b, app == sym.body(a) + sym.fn(a + 1, b)))
             else:
